@@ -26,8 +26,8 @@ theorem generated_facts :
     Gen.h2WrapElseCertDefault = "ssl.CERT_REQUIRED" ∧ Gen.h2WrapSniIsHostname = true ∧
     Gen.h2WrapIffSecure = true := by decide
 
-private theorem wrapSni_eq (v : CertReqs) (ch : Option Bool) (caf cap : Option Str) (nm : Str) :
-    wrapSni ⟨some v, ch, caf, cap, none⟩ nm =
+private theorem wrapSni_eq (v : CertReqs) (ch : Option Bool) (caf cap : Option Str) (nm : Str) (lg : Bool) :
+    wrapSni ⟨some v, ch, caf, cap, none, lg⟩ nm =
       match v with
       | .none => if ch = some true then .error .valueError else .ok (.fresh .none false .unset nm)
       | v => .ok (.fresh v (ch.getD true)
@@ -43,11 +43,11 @@ private theorem wrapSni_eq (v : CertReqs) (ch : Option Bool) (caf cap : Option S
   simp only [e2, e3, e4, e5, e6, e7, e8, Option.getD_some]
   by_cases hca : (truthy caf).isSome = true ∨ (truthy cap).isSome = true
   · rcases ch with _ | c
-    · cases v <;> simp [hca, setCheck, setVerify, PyCtx.fresh]
-    · cases c <;> cases v <;> simp [hca, setCheck, setVerify, PyCtx.fresh]
+    · cases v <;> cases lg <;> simp [hca, setCheck, setVerify, PyCtx.fresh, PyCtx.freshOf]
+    · cases c <;> cases v <;> cases lg <;> simp [hca, setCheck, setVerify, PyCtx.fresh, PyCtx.freshOf]
   · rcases ch with _ | c
-    · cases v <;> simp [hca, setCheck, setVerify, PyCtx.fresh]
-    · cases c <;> cases v <;> simp [hca, setCheck, setVerify, PyCtx.fresh]
+    · cases v <;> cases lg <;> simp [hca, setCheck, setVerify, PyCtx.fresh, PyCtx.freshOf]
+    · cases c <;> cases v <;> cases lg <;> simp [hca, setCheck, setVerify, PyCtx.fresh, PyCtx.freshOf]
 
 private theorem isSome_false_eq_none {α : Type} (o : Option α) (h : o.isSome = false) : o = none := by
   cases o <;> simp_all
@@ -55,7 +55,7 @@ private theorem isSome_false_eq_none {α : Type} (o : Option α) (h : o.isSome =
 private theorem cafile_eq (cr : Option CertReqs) (ch : Option Bool) (b caf cap sh : Option Str)
     (cx : Option Nat) (f d : Bool) :
     (if ((truthy b).isSome && f && caf.isNone) = true then truthy b else caf)
-      = Spec.Tls.caFile ⟨cr, ch, caf, cap, sh, cx⟩ ⟨b, f, d⟩ := by
+      = Spec.Tls.caFile ⟨cr, ch, caf, cap, sh, cx, lg⟩ ⟨b, f, d⟩ := by
   have hg : Spec.Tls.given b = truthy b := rfl
   unfold Spec.Tls.caFile
   cases caf with
@@ -73,7 +73,7 @@ private theorem capath_eq (cr : Option CertReqs) (ch : Option Bool) (b caf cap s
     (cx : Option Nat) (f d : Bool) (hfd : ¬ (f = true ∧ d = true)) :
     (if (!((truthy b).isSome && f && caf.isNone) && (truthy b).isSome && d && cap.isNone) = true
       then truthy b else cap)
-      = Spec.Tls.caPath ⟨cr, ch, caf, cap, sh, cx⟩ ⟨b, f, d⟩ := by
+      = Spec.Tls.caPath ⟨cr, ch, caf, cap, sh, cx, lg⟩ ⟨b, f, d⟩ := by
   have hg : Spec.Tls.given b = truthy b := rfl
   unfold Spec.Tls.caPath
   cases cap with
@@ -100,11 +100,11 @@ theorem C11_policy (o : SslOpt) (env : TlsEnv) (host : Str)
       match Spec.Tls.tlsPolicy o env host with
       | some p => .ok p
       | none => .error .valueError := by
-  obtain ⟨cr, ch, caf, cap, sh, cx⟩ := o
+  obtain ⟨cr, ch, caf, cap, sh, cx, lg⟩ := o
   obtain ⟨b, f, d⟩ := env
   have e1 : certOf Gen.sslDefaultCertReqs = .required := by decide
-  have hname : effectiveName ⟨cr, ch, caf, cap, sh, cx⟩ host
-      = Spec.Tls.peerName ⟨cr, ch, caf, cap, sh, cx⟩ host := by
+  have hname : effectiveName ⟨cr, ch, caf, cap, sh, cx, lg⟩ host
+      = Spec.Tls.peerName ⟨cr, ch, caf, cap, sh, cx, lg⟩ host := by
     unfold effectiveName Spec.Tls.peerName
     rfl
   cases cx with
@@ -114,13 +114,13 @@ theorem C11_policy (o : SslOpt) (env : TlsEnv) (host : Str)
   | none =>
     simp only [sslSocket, e1, Spec.Tls.tlsPolicy]
     rw [hname, wrapSni_eq, cafile_eq cr ch b caf cap sh none f d, capath_eq cr ch b caf cap sh none f d hfd]
-    generalize Spec.Tls.peerName ⟨cr, ch, caf, cap, sh, none⟩ host = nm
-    have hca : (if (truthy (Spec.Tls.caFile ⟨cr, ch, caf, cap, sh, none⟩ ⟨b, f, d⟩)).isSome = true
-                  ∨ (truthy (Spec.Tls.caPath ⟨cr, ch, caf, cap, sh, none⟩ ⟨b, f, d⟩)).isSome = true
-                then CaSource.locations (Spec.Tls.caFile ⟨cr, ch, caf, cap, sh, none⟩ ⟨b, f, d⟩)
-                  (Spec.Tls.caPath ⟨cr, ch, caf, cap, sh, none⟩ ⟨b, f, d⟩)
+    generalize Spec.Tls.peerName ⟨cr, ch, caf, cap, sh, none, lg⟩ host = nm
+    have hca : (if (truthy (Spec.Tls.caFile ⟨cr, ch, caf, cap, sh, none, lg⟩ ⟨b, f, d⟩)).isSome = true
+                  ∨ (truthy (Spec.Tls.caPath ⟨cr, ch, caf, cap, sh, none, lg⟩ ⟨b, f, d⟩)).isSome = true
+                then CaSource.locations (Spec.Tls.caFile ⟨cr, ch, caf, cap, sh, none, lg⟩ ⟨b, f, d⟩)
+                  (Spec.Tls.caPath ⟨cr, ch, caf, cap, sh, none, lg⟩ ⟨b, f, d⟩)
                 else CaSource.default)
-        = Spec.Tls.caSource ⟨cr, ch, caf, cap, sh, none⟩ ⟨b, f, d⟩ := rfl
+        = Spec.Tls.caSource ⟨cr, ch, caf, cap, sh, none, lg⟩ ⟨b, f, d⟩ := rfl
     rw [hca]
     cases hcr : cr.getD .required with
     | none =>
@@ -147,7 +147,7 @@ theorem C11_only_own_check_ca (o : SslOpt) (env env' : TlsEnv) (host : Str) (caf
     let b := tlsPolicy o env host
     a.map Policy.verify = b.map Policy.verify ∧ a.map Policy.check = b.map Policy.check ∧
     a.map Policy.sni = b.map Policy.sni ∧ a.map Policy.userCtx = b.map Policy.userCtx := by
-  obtain ⟨cr, ch, f0, p0, sh, cx⟩ := o
+  obtain ⟨cr, ch, f0, p0, sh, cx, lg⟩ := o
   simp only [tlsPolicy, peerName]
   cases cx with
   | some c => simp [Policy.verify, Policy.check, Policy.sni, Policy.userCtx]
@@ -163,15 +163,15 @@ theorem C11_only_own_check_sni (o : SslOpt) (env : TlsEnv) (host : Str) (sh : Op
     a.map Policy.verify = b.map Policy.verify ∧ a.map Policy.check = b.map Policy.check ∧
     a.map Policy.ca = b.map Policy.ca ∧ a.map Policy.userCtx = b.map Policy.userCtx ∧
     (∀ s, given sh = some s → a.map Policy.sni = b.map (fun _ => s)) := by
-  obtain ⟨cr, ch, f0, p0, sh0, cx⟩ := o
-  have hca : caSource ⟨cr, ch, f0, p0, sh, cx⟩ env = caSource ⟨cr, ch, f0, p0, sh0, cx⟩ env := rfl
-  have hpn : ∀ s, given sh = some s → peerName ⟨cr, ch, f0, p0, sh, cx⟩ host = s := by
+  obtain ⟨cr, ch, f0, p0, sh0, cx, lg⟩ := o
+  have hca : caSource ⟨cr, ch, f0, p0, sh, cx, lg⟩ env = caSource ⟨cr, ch, f0, p0, sh0, cx, lg⟩ env := rfl
+  have hpn : ∀ s, given sh = some s → peerName ⟨cr, ch, f0, p0, sh, cx, lg⟩ host = s := by
     intro s hs; simp only [peerName, hs]
   simp only [tlsPolicy]
-  generalize hn1 : peerName ⟨cr, ch, f0, p0, sh, cx⟩ host = n1 at hpn
-  generalize peerName ⟨cr, ch, f0, p0, sh0, cx⟩ host = n0
+  generalize hn1 : peerName ⟨cr, ch, f0, p0, sh, cx, lg⟩ host = n1 at hpn
+  generalize peerName ⟨cr, ch, f0, p0, sh0, cx, lg⟩ host = n0
   rw [hca]
-  generalize caSource ⟨cr, ch, f0, p0, sh0, cx⟩ env = ca
+  generalize caSource ⟨cr, ch, f0, p0, sh0, cx, lg⟩ env = ca
   cases cx with
   | some c =>
     refine ⟨rfl, rfl, rfl, rfl, ?_⟩
@@ -202,16 +202,16 @@ theorem C11_only_own_check_hostname (o : SslOpt) (env : TlsEnv) (host : Str)
       = some (.fresh (o.certReqs.getD .required) false (caSource o env) (peerName o host)) ∧
     tlsPolicy { o with checkHostname := none } env host
       = some (.fresh (o.certReqs.getD .required) true (caSource o env) (peerName o host)) := by
-  obtain ⟨cr, ch, f0, p0, sh0, cx⟩ := o
+  obtain ⟨cr, ch, f0, p0, sh0, cx, lg⟩ := o
   simp only at hctx hv
   subst hctx
-  have hca : ∀ c, caSource ⟨cr, c, f0, p0, sh0, none⟩ env = caSource ⟨cr, ch, f0, p0, sh0, none⟩ env :=
+  have hca : ∀ c, caSource ⟨cr, c, f0, p0, sh0, none, lg⟩ env = caSource ⟨cr, ch, f0, p0, sh0, none, lg⟩ env :=
     fun _ => rfl
-  have hpn : ∀ c, peerName ⟨cr, c, f0, p0, sh0, none⟩ host = peerName ⟨cr, ch, f0, p0, sh0, none⟩ host :=
+  have hpn : ∀ c, peerName ⟨cr, c, f0, p0, sh0, none, lg⟩ host = peerName ⟨cr, ch, f0, p0, sh0, none, lg⟩ host :=
     fun _ => rfl
   simp only [tlsPolicy, hca, hpn]
-  generalize caSource ⟨cr, ch, f0, p0, sh0, none⟩ env = ca
-  generalize peerName ⟨cr, ch, f0, p0, sh0, none⟩ host = nm
+  generalize caSource ⟨cr, ch, f0, p0, sh0, none, lg⟩ env = ca
+  generalize peerName ⟨cr, ch, f0, p0, sh0, none, lg⟩ host = nm
   rcases cr with _ | c
   · exact ⟨rfl, rfl⟩
   · cases c
@@ -229,16 +229,16 @@ theorem C11_only_own_check_cert (o : SslOpt) (env : TlsEnv) (host : Str) (hctx :
     (∀ v, v ≠ CertReqs.none →
       tlsPolicy { o with certReqs := some v } env host
         = some (.fresh v (o.checkHostname.getD true) (caSource o env) (peerName o host))) := by
-  obtain ⟨cr, ch, f0, p0, sh0, cx⟩ := o
+  obtain ⟨cr, ch, f0, p0, sh0, cx, lg⟩ := o
   simp only at hctx
   subst hctx
-  have hca : ∀ c, caSource ⟨c, ch, f0, p0, sh0, none⟩ env = caSource ⟨cr, ch, f0, p0, sh0, none⟩ env :=
+  have hca : ∀ c, caSource ⟨c, ch, f0, p0, sh0, none, lg⟩ env = caSource ⟨cr, ch, f0, p0, sh0, none, lg⟩ env :=
     fun _ => rfl
-  have hpn : ∀ c, peerName ⟨c, ch, f0, p0, sh0, none⟩ host = peerName ⟨cr, ch, f0, p0, sh0, none⟩ host :=
+  have hpn : ∀ c, peerName ⟨c, ch, f0, p0, sh0, none, lg⟩ host = peerName ⟨cr, ch, f0, p0, sh0, none, lg⟩ host :=
     fun _ => rfl
   simp only [tlsPolicy, hca, hpn]
-  generalize caSource ⟨cr, ch, f0, p0, sh0, none⟩ env = ca
-  generalize peerName ⟨cr, ch, f0, p0, sh0, none⟩ host = nm
+  generalize caSource ⟨cr, ch, f0, p0, sh0, none, lg⟩ env = ca
+  generalize peerName ⟨cr, ch, f0, p0, sh0, none, lg⟩ host = nm
   refine ⟨?_, ?_, ?_⟩
   · intro h; simp only [Option.getD_some, if_neg h]
   · intro h; simp only [Option.getD_some, if_pos h]
@@ -250,7 +250,7 @@ theorem C11_only_own_check_cert (o : SslOpt) (env : TlsEnv) (host : Str) (hctx :
 /-- (5) — a caller-made context is used as it is; only the name passed to `wrap_socket` is chosen. -/
 theorem C11_only_own_check_context (o : SslOpt) (env : TlsEnv) (host : Str) (c : Nat)
     (h : o.context = some c) : tlsPolicy o env host = some (.user c (peerName o host)) := by
-  obtain ⟨cr, ch, f0, p0, sh0, cx⟩ := o
+  obtain ⟨cr, ch, f0, p0, sh0, cx, lg⟩ := o
   simp only at h
   subst h
   rfl
@@ -369,5 +369,19 @@ example :
     (connect (demoEnv false false) (fun _ => peer false) "ws://h/".toList {} none none {}).trace.all
         (fun e => match e with | .wrap _ _ _ => false | _ => true) = true := by
   decide +kernel
+
+/-- **C11_ssl_version_cannot_relax** — the `ssl_version` option (which protocol constant the context is created for)
+    is NOT one of the options that may relax authentication: although a context made for a legacy constant starts with
+    verification switched off (`PyCtx.freshOf true` = CERT_NONE, no host-name check), `_ssl_socket` sets BOTH attributes
+    explicitly on every path, so the policy it ends with — and the refusal of CERT_NONE + check_hostname — is the same
+    for every `sslopt`, environment and host whichever constant was asked for. -/
+theorem C11_ssl_version_cannot_relax (o : SslOpt) (env : TlsEnv) (host : Str) (lg : Bool)
+    (hfd : ¬ (env.isFile = true ∧ env.isDir = true)) :
+    sslSocket { o with legacy := lg } env host = sslSocket o env host := by
+  rw [C11_policy _ env host hfd, C11_policy o env host hfd]
+  rfl
+
+/-- the initial states really differ (so the theorem above is not vacuous) -/
+example : PyCtx.freshOf true ≠ PyCtx.freshOf false := by decide
 
 end WS.Props.C11
